@@ -10,20 +10,22 @@ import torch
 from core import Ctx, Violation, err_name, line, ok_tensor, tensor_groups
 
 PROP = "C10"
+EXTRA_LEAN_MODULES = ["DirectVerif.Lemmas.TensorLiftC10"]  # n-D corollaries (lifting laws of alongAxis)
 MANIFEST = {
     "text": "Lean 4 theorems over all sizes/parities: centre crop = central window at offset floor((n-s)/2); pad places data at "
             "floor((N-n)/2); pad followed by centre crop is the identity; F.pad pair order for any number of axes; bbox window "
             "specification. Tied to the code by translated arithmetic (bridge lemmas closed by omega) and exact differential "
             "correspondence on labelled tensors.",
-    "note": "Trusted: Lean kernel (+propext, Classical.choice, Quot.sound), the AST translator, the row-major lifting alongAxis "
-            "(validated by correspondence), torch slicing/F.pad semantics. k-space crop/pad equivalence is checked on the "
+    "note": "Trusted: Lean kernel (+propext, Classical.choice, Quot.sound), the AST translator, torch slicing/F.pad semantics "
+            "(as encoded by slice/fPad; the row-major per-axis lifting is proved, Lemmas/TensorLift.lean). k-space crop/pad equivalence is checked on the "
             "implementation under FFT rounding tolerance, not proved.",
     "technique": "Lean 4 proof (omega/list induction) + AST translation bridge + differential correspondence",
 }
 TRUSTED = [
     "Lean 4.33 kernel; axioms ⊆ {propext, Classical.choice, Quot.sound}",
     "harness/translate (Python AST -> Lean) for center_crop / complex_center_crop / pad_tensor arithmetic",
-    "Tensor.alongAxis (row-major lifting of 1-D list functions to one axis) — validated by correspondence, not proved",
+    "Tensor.alongAxis (row-major lifting of 1-D list functions to one axis) is proved functorial (Lemmas/TensorLift.lean: "
+    "alongAxis_comp/_id_of/_cancel/_fibre) for the very definition the driver runs; the n-D corollaries are obligations of this check",
     "torch indexing / F.pad index semantics as encoded by slice / fPad",
     "crop_to_bbox arithmetic is hand-modelled (numpy vector code is not translated); tied by correspondence only",
 ]
